@@ -35,6 +35,7 @@ from typing import Any
 
 from happysimulator.core.entity import Entity
 from happysimulator.core.event import Event
+from happysimulator.core.sim_future import SimFuture
 
 logger = logging.getLogger(__name__)
 
@@ -206,20 +207,17 @@ class RWLock(Entity):
         self._read_contentions += 1
         enqueue_time = self._clock.now.nanoseconds if self._clock else 0
 
-        acquired = [False]
-
-        def on_wake():
-            acquired[0] = True
-
+        # Park on a future that a release resolves (no events while waiting)
+        granted = SimFuture()
         waiter = _Waiter(
             waiter_type=_WaiterType.READER,
-            callback=on_wake,
+            callback=granted.resolve,
             enqueue_time_ns=enqueue_time,
         )
         self._waiters.append(waiter)
 
-        while not acquired[0]:
-            yield 0.0
+        while not granted.is_resolved:
+            yield granted
 
         self._read_acquisitions += 1
 
@@ -243,20 +241,17 @@ class RWLock(Entity):
         self._write_contentions += 1
         enqueue_time = self._clock.now.nanoseconds if self._clock else 0
 
-        acquired = [False]
-
-        def on_wake():
-            acquired[0] = True
-
+        # Park on a future that a release resolves (no events while waiting)
+        granted = SimFuture()
         waiter = _Waiter(
             waiter_type=_WaiterType.WRITER,
-            callback=on_wake,
+            callback=granted.resolve,
             enqueue_time_ns=enqueue_time,
         )
         self._waiters.append(waiter)
 
-        while not acquired[0]:
-            yield 0.0
+        while not granted.is_resolved:
+            yield granted
 
         self._write_acquisitions += 1
 
